@@ -194,6 +194,17 @@ func (ex *Ex) instantiate(asserts []*T, heap map[string]*T, rounds int) []*T {
 				}
 			}
 		}
+		// pure calls through a known closure: instantiate the closure's contract
+		for _, app := range groundApps(all, func(op string) bool { return strings.HasPrefix(op, "app$") }) {
+			key := app.String()
+			if done["app:"+key] || len(app.Args) == 0 || app.Args[0].Kind != kApp || !strings.HasPrefix(app.Args[0].Op, "fn$") {
+				continue
+			}
+			done["app:"+key] = true
+			if fact := ex.closureFact(st, app); fact != nil {
+				newFacts = append(newFacts, fact)
+			}
+		}
 		if len(newFacts) == 0 {
 			break
 		}
@@ -201,6 +212,149 @@ func (ex *Ex) instantiate(asserts []*T, heap map[string]*T, rounds int) []*T {
 		all = append(all, newFacts...)
 	}
 	return extra
+}
+
+// closureAxioms: for every closure constant fn$F mentioned in the query whose function has a
+// contract (and no free variables): fn$F is non-nil, distinct from the other closure constants,
+// and its contract holds for all arguments (quantified, with the result applications as patterns;
+// closure contracts are not recursive, so e-matching terminates).
+func (ex *Ex) closureAxioms(asserts []*T, heap map[string]*T) []*T {
+	w := ex.W
+	consts := map[string]*T{}
+	for _, a := range asserts {
+		Walk(a, func(x *T) {
+			if x.Kind == kApp && strings.HasPrefix(x.Op, "fn$") && len(x.Args) == 0 {
+				consts[x.Op] = x
+			}
+		})
+	}
+	if len(consts) == 0 {
+		return nil
+	}
+	if w.fnByConst == nil {
+		w.fnByConst = map[string]*ssa.Function{}
+		for fn := range w.Contracts {
+			w.fnByConst["fn$"+mangle(w.funcName(fn))] = fn
+		}
+	}
+	var out []*T
+	names := sortedKeys(consts)
+	for i, n := range names {
+		out = append(out, Not(Eq(consts[n], App("nil$Fn", SFn))))
+		for _, m := range names[i+1:] {
+			out = append(out, Not(Eq(consts[n], consts[m])))
+		}
+		fn := w.fnByConst[n]
+		if fn == nil || len(fn.FreeVars) > 0 {
+			continue
+		}
+		ctr := w.Contracts[fn]
+		st := NewState()
+		st.heap = copyHeap(heap)
+		var vars []*T
+		args := []*T{consts[n]}
+		for _, p := range fn.Params {
+			v := Var(p.Name()+"$c", w.SortOf(p.Type()))
+			vars = append(vars, v)
+			args = append(args, v)
+			st.regs[p] = Val{T: v}
+		}
+		cf := &Frame{Fn: fn, Ctr: ctr, Name: w.funcName(fn), Entry: st}
+		env := ex.newEnv(cf, st)
+		env.pkgName = ctr.PkgName
+		sig := fn.Signature
+		var pats []*T
+		for i := 0; i < sig.Results().Len(); i++ {
+			rt := sig.Results().At(i).Type()
+			app := App(appSym(sig, i), w.SortOf(rt), args...)
+			env.results = append(env.results, SV{T: app, Ty: SType{G: rt}})
+			pats = append(pats, app)
+		}
+		env.resNames = resultNames(sig)
+		var pres, posts []*T
+		ok := true
+		for _, rq := range ctr.Requires {
+			t, err := ex.trBool(env, rq.E)
+			if err != nil {
+				ok = false
+				break
+			}
+			pres = append(pres, t)
+		}
+		for _, en := range ctr.Ensures {
+			t, err := ex.trBool(env, en.E)
+			if err != nil {
+				ok = false
+				break
+			}
+			posts = append(posts, t)
+		}
+		if !ok || len(posts) == 0 || len(vars) == 0 {
+			continue
+		}
+		var patsets [][]*T
+		for _, p := range pats {
+			patsets = append(patsets, []*T{p})
+		}
+		out = append(out, Forall(vars, Implies(And(pres...), And(posts...)), patsets...))
+	}
+	return out
+}
+
+// closureFact: for app$sig$i(fn$F, args...) where F has a contract: requires ==> ensures with the
+// results named by the app terms.
+func (ex *Ex) closureFact(st *State, app *T) *T {
+	w := ex.W
+	if w.fnByConst == nil {
+		w.fnByConst = map[string]*ssa.Function{}
+		for fn := range w.Contracts {
+			w.fnByConst["fn$"+mangle(w.funcName(fn))] = fn
+		}
+	}
+	fn := w.fnByConst[app.Args[0].Op]
+	if fn == nil || len(fn.FreeVars) > 0 {
+		return nil
+	}
+	ctr := w.Contracts[fn]
+	if len(fn.Params) != len(app.Args)-1 {
+		return nil
+	}
+	pst := st.Clone()
+	for i, p := range fn.Params {
+		if !w.SortOf(p.Type()).Eq(app.Args[i+1].S) {
+			return nil
+		}
+		pst.regs[p] = Val{T: app.Args[i+1]}
+	}
+	cf := &Frame{Fn: fn, Ctr: ctr, Name: w.funcName(fn), Entry: pst}
+	env := ex.newEnv(cf, pst)
+	env.pkgName = ctr.PkgName
+	sig := fn.Signature
+	for i := 0; i < sig.Results().Len(); i++ {
+		rt := sig.Results().At(i).Type()
+		env.results = append(env.results, SV{T: App(appSym(sig, i), w.SortOf(rt), app.Args...), Ty: SType{G: rt}})
+	}
+	env.resNames = resultNames(sig)
+	var pres, posts []*T
+	for _, rq := range ctr.Requires {
+		t, err := ex.trBool(env, rq.E)
+		if err != nil {
+			return nil
+		}
+		pres = append(pres, t)
+	}
+	for _, en := range ctr.Ensures {
+		t, err := ex.trBool(env, en.E)
+		if err != nil {
+			w.warnf("closure contract %s: %v", cf.Name, err)
+			return nil
+		}
+		posts = append(posts, t)
+	}
+	if len(posts) == 0 {
+		return nil
+	}
+	return Implies(And(pres...), And(posts...))
 }
 
 type definer struct {
@@ -562,6 +716,7 @@ func (ex *Ex) BuildSMT(q *Query, rounds int) string {
 	extra2 := ex.instantiate(asserts, q.Heap, 1)
 	asserts = append(asserts, extra2...)
 	asserts = append(asserts, ex.quantifiedUnfolds(asserts, q.Heap)...)
+	asserts = append(asserts, ex.closureAxioms(asserts, q.Heap)...)
 	facts, tdefs := ex.typeFacts(asserts)
 	asserts = append(asserts, facts...)
 	// results of spec functions declared with an interface type have that interface's methods
